@@ -54,10 +54,16 @@ package kafka
 //@   requires ti < len(p.config.Topics)
 //@   assert at "p.client.MarkCommitOffsets(offsets)" index == ti && partition == tp && offset.Offset == ro + 1 && offset.Epoch == re
 //@   callee MarkCommitOffsets(o)
+//@     requires fresh(o)
 //@     pure
 
+// (The marks are handed over in a map built for this one call - `fresh` - so that it
+// holds the event's own topic / partition and nothing left over from other events.)
+
 // consume: every record is handed to the pipeline with the packed id of this
-// consumer's topic and the record's partition, and the packed offset/epoch.
+// consumer's topic and the record's partition, and the packed offset/epoch.  The
+// consumer itself never marks anything for commit: a record is marked by Commit, when
+// the pipeline says it is finished (guard clauses: the kgo mark calls must not appear).
 
 //@ func (*pconsumer).consume
 //@   option allow-exit yes
@@ -70,6 +76,12 @@ package kafka
 //@     pure
 //@   callee newMetaInformation(m)
 //@     pure
+//@   callee MarkCommitRecords(r)
+//@     requires false
+//@   callee MarkCommitOffsets(o)
+//@     requires false
+//@   callee CommitRecords(c, r)
+//@     requires false
 
 // Start: the topic -> index table maps every configured topic to a position
 // of that topic in config.Topics (what Commit relies on when it indexes
